@@ -1,0 +1,103 @@
+//! Introspection hooks for the external model-checking harness (feature `verif-hooks`).
+//!
+//! Everything here is read-only, except [`reset_thread_state`], which restores the calling thread's
+//! collector state to the state of a freshly spawned thread, and [`set_alloc_observer`], which only
+//! registers a callback. Nothing in this module is used by the crate itself.
+
+use alloc::alloc::Layout;
+use alloc::vec::Vec;
+use core::cell::Cell;
+
+use crate::cc::CcBox;
+use crate::{Cc, Trace, POSSIBLE_CYCLES};
+
+/// Raw per-object collector state.
+#[derive(Clone, Copy, Debug, PartialEq, Eq, Hash)]
+pub struct ObjSnapshot {
+    /// Raw `counter` word: bits 0..14 reference counter, bit 14 finalized, bit 15 metadata allocated.
+    pub counter_raw: u16,
+    /// Raw `tracing_counter` word: bits 0..14 tracing counter (all ones = dropped), bits 14..16 mark.
+    pub tracing_counter_raw: u16,
+    /// Address of the next `CcBox` in the list the object is in (0 if none).
+    pub next: usize,
+    /// Address of the previous `CcBox` in the list the object is in (0 if none).
+    pub prev: usize,
+    /// Address of the weak side record (0 if none).
+    pub metadata_addr: usize,
+    /// Raw weak counter word (bits 0..15 weak counter, bit 15 accessible), if the side record exists.
+    pub weak_raw: Option<u16>,
+}
+
+/// Kind of allocation event reported to the observer.
+#[derive(Clone, Copy, Debug, PartialEq, Eq, Hash)]
+pub enum AllocEvent {
+    /// A `CcBox` has been allocated.
+    BoxAlloc,
+    /// A `CcBox` is about to be deallocated.
+    BoxDealloc,
+    /// A side allocation (weak metadata) has been allocated.
+    OtherAlloc,
+    /// A side allocation (weak metadata) is about to be deallocated.
+    OtherDealloc,
+}
+
+/// Observer of the allocations made by the crate: `(event, address, size, align)`.
+pub type AllocObserver = fn(AllocEvent, usize, usize, usize);
+
+crate::utils::rust_cc_thread_local! {
+    static ALLOC_OBSERVER: Cell<Option<AllocObserver>> = const { Cell::new(None) };
+}
+
+/// Sets (or removes) the allocation observer of the current thread.
+pub fn set_alloc_observer(observer: Option<AllocObserver>) {
+    let _ = ALLOC_OBSERVER.try_with(|obs| obs.set(observer));
+}
+
+#[inline]
+pub(crate) fn notify(event: AllocEvent, addr: usize, layout: Layout) {
+    if let Ok(Some(observer)) = ALLOC_OBSERVER.try_with(|obs| obs.get()) {
+        observer(event, addr, layout.size(), layout.align());
+    }
+}
+
+/// Returns the address of the allocation managed by `cc`.
+#[inline]
+pub fn box_addr<T: ?Sized + Trace>(cc: &Cc<T>) -> usize {
+    cc.inner() as *const CcBox<T> as *const () as usize
+}
+
+/// Reads the collector state of the allocation at `addr`.
+///
+/// # Safety
+/// `addr` must be the address (see [`box_addr`]) of a `CcBox` which has not been deallocated.
+#[inline]
+pub unsafe fn snapshot_at(addr: usize) -> ObjSnapshot {
+    (*(addr as *const CcBox<()>)).verif_snapshot()
+}
+
+/// Returns the addresses of the buffered allocations, in list order. At most `max` elements are visited.
+pub fn buffer(max: usize) -> Vec<usize> {
+    POSSIBLE_CYCLES.try_with(|pc| pc.iter().take(max).map(|ptr| ptr.as_ptr() as usize).collect()).unwrap_or_default()
+}
+
+/// Returns `(collecting, finalizing, dropping)`.
+pub fn state_flags() -> (bool, bool, bool) {
+    crate::state::verif_state_flags()
+}
+
+/// Returns the current bytes threshold used by automatic collections.
+#[cfg(feature = "auto-collect")]
+pub fn bytes_threshold() -> Option<usize> {
+    crate::config::config(|config| config.verif_bytes_threshold()).ok()
+}
+
+/// Makes the collector state of the calling thread pristine, *forgetting* (leaking) every buffered object.
+pub fn reset_thread_state() {
+    let _ = POSSIBLE_CYCLES.try_with(|pc| pc.verif_reset());
+    crate::state::verif_reset_state();
+
+    #[cfg(feature = "auto-collect")]
+    {
+        let _ = crate::config::config(|config| *config = crate::config::Config::default());
+    }
+}
